@@ -291,9 +291,11 @@ def jacobi_der_seq(ns, alpha, beta, x):
 def _initialize_alphas(s, x, alphas, j=0):
     # j = derivative order
     if alphas is None:
-        if hasattr(x, 'dtype'):
+        if hasattr(x, 'dtype') and x.dtype.kind in 'fc':
             dtype = x.dtype
         else:
+            # python numbers and integer coordinates (x = -1, 0, 1; u = 1):
+            # the alphas hold real-valued sums, never take an integer dtype
             dtype = config.precision
         if hasattr(x, 'shape'):
             shape = (len(s), *x.shape)
